@@ -516,14 +516,37 @@ func c10(r *core.Run) {
 			return
 		}
 		r.Fn(core.FuncName(stop), core.FuncName(t.run))
-		cl := core.Calls(stop, core.CallTo("builtin:close"))
-		o.Site(len(cl), core.FuncName(stop))
-		ok := false
-		for _, c := range cl {
-			if chanField(core.Args(c)[0]) == "stopChannel" {
-				ok = true
+		// the close sits in Stop itself, in a function literal Stop creates (the argument of
+		// sync.Once.Do since fix da574fa), or in a function of the package that Stop calls or
+		// hands to sync.Once.Do as a method value; that it runs at most once is D1/K10.
+		stopCode := map[*ssa.Function]bool{}
+		for _, g := range c06Union(core.WithAnon(stop), newC06Env(stop).fns) {
+			stopCode[g] = true
+			for _, c := range core.Calls(g, func(in ssa.Instruction) bool { return core.AsCall(in) != nil }) {
+				if c.Common().IsInvoke() {
+					continue
+				}
+				if h := c.Common().StaticCallee(); h != nil && h.Pkg == stop.Pkg {
+					stopCode[h] = true
+				}
+				for _, a := range c.Common().Args {
+					if h := fnOfValue(a); h != nil && h.Pkg == stop.Pkg {
+						stopCode[h] = true
+					}
+				}
 			}
 		}
+		ok := false
+		ncl := 0
+		for g := range stopCode {
+			for _, c := range core.Calls(g, core.CallTo("builtin:close")) {
+				ncl++
+				if chanField(core.Args(c)[0]) == "stopChannel" {
+					ok = true
+				}
+			}
+		}
+		o.Site(ncl, core.FuncName(stop))
 		if !ok {
 			o.Fail(p.Pos(stop.Pos()), "Stop does not close stopChannel")
 		}
@@ -557,6 +580,13 @@ func c10(r *core.Run) {
 				continue
 			}
 			for i, in := range sites {
+				// a field that is consistently guarded by a lock is not owner state: it follows the
+				// other discipline (the "stopped" flag of a Stop that closes the stop channel once, D1/K10 form c)
+				if st, isStore := in.(*ssa.Store); isStore {
+					if name, ok := wheelFieldAddr(st.Addr); ok && c10LockGuardedField(p, f10CollPkg, name) {
+						continue
+					}
+				}
 				o.Fail(p.InstrPos(in), "%s in %s, which does not run only on the owner goroutine: %s", what[i], core.FuncName(f), t.g.whyNotOwned(f, t.owned))
 			}
 		}
